@@ -205,12 +205,15 @@ def wrapper_cases(seed, tier, real_t=np.float64):
             f, fb1, fb2 = A(*S2), A(*S2), A(*S2)
             ft = "convolution" if conv else "multiplicative"
             k = spne.gen_laplacian_filter_kernel_3d(filter_order=order, filter_flux_buffer=fb1, field_buffer=fb2, real_t=real_t, filter_type=ft)
+            # the work buffers are shared scratch in the simulators: dirty them AFTER the kernel was generated
+            fb1[...] = r.normal(size=S2).astype(real_t); fb2[...] = r.normal(size=S2).astype(real_t)
             add("filter_3d", {"nz": S2[0], "ny": S2[1], "nx": S2[2], "conv": conv, "order": order}, {"scalar_field": f, "filter_flux_buffer": fb1, "field_buffer": fb2},
                 lambda k=k, f=f: k(scalar_field=f), f"laplacian_filter_3d[{ft},order={order}]",
                 ref=(lambda b, order=order, ft=ft: {"scalar_field": R.laplacian_filter(b["scalar_field"].astype(np.float64), order, ft)}) if order > 0 else None)
         S2 = _shape(r, 4, 6)
         vf, fb1, fb2 = A(3, *S2), A(*S2), A(*S2)
         k = spne.gen_laplacian_filter_kernel_3d(filter_order=2, filter_flux_buffer=fb1, field_buffer=fb2, real_t=real_t, field_type="vector", filter_type="convolution")
+        fb1[...] = r.normal(size=S2).astype(real_t); fb2[...] = r.normal(size=S2).astype(real_t)
         add("filter_vec_3d", {"nz": S2[0], "ny": S2[1], "nx": S2[2], "conv": True, "order": 2}, {"vector_field": vf, "filter_flux_buffer": fb1, "field_buffer": fb2},
             lambda k=k, vf=vf: k(vector_field=vf), "laplacian_filter_3d[vector,convolution,order=2]")
         # boundary-zone damping
